@@ -79,7 +79,7 @@ theorem commit_exact (cf : Path) (oldFiles oldDirs errDirs : List Path) (P V : F
     (hsub : ∀ q, V.get q ≠ none → P.get q = V.get q)
     (hfiles : ∀ q b m, q ≠ cf → P.get q = some (.file b m) → V.get q = none → q ∈ oldFiles)
     (hdirs : ∀ q, P.get q = some .dir → V.get q = none → q ∈ errDirs ∨ q ∈ oldDirs)
-    (herr : ∀ d ∈ errDirs, V.get d = none)
+    (herr : ∀ d ∈ errDirs, V.isDir d = false)
     (hcf : P.get cf ≠ none → V.isDir cf.dropLast = true) :
     ∀ q, q ≠ cf → (commit (fun p => V.isFile p) (fun p => V.isDir p) cf oldFiles oldDirs errDirs P).get q = V.get q := by
   intro q hqcf
@@ -101,7 +101,7 @@ theorem commit_exact (cf : Path) (oldFiles oldDirs errDirs : List Path) (P V : F
       rw [hPq] at h2
       cases h2
       rcases h1 with h1 | h1
-      · rw [herr q h1] at hV; cases hV
+      · have := herr q h1; simp [FS.isDir, hV] at this
       · simp [FS.isDir, hV] at h1
   | none =>
     cases hPq : P.get q with
@@ -175,7 +175,7 @@ theorem commit_exact_general (cf : Path) (oldFiles oldDirs errDirs : List Path) 
     (hsub : ∀ q, V.get q ≠ none → P.get q = V.get q)
     (hfiles : ∀ q b m, q ≠ cf → P.get q = some (.file b m) → V.get q = none → q ∈ oldFiles)
     (hdirs : ∀ q, P.get q = some .dir → V.get q = none → q ∈ errDirs ∨ q ∈ oldDirs)
-    (herr : ∀ d ∈ errDirs, V.get d = none)
+    (herr : ∀ d ∈ errDirs, V.isDir d = false)
     :
     ∀ q, (V.get q ≠ none ∨ ¬ q <+: cf) → (commit (fun p => V.isFile p) (fun p => V.isDir p) cf oldFiles oldDirs errDirs P).get q = V.get q := by
   intro q hq
@@ -201,7 +201,7 @@ theorem commit_exact_general (cf : Path) (oldFiles oldDirs errDirs : List Path) 
       rw [hPq] at h2
       cases h2
       rcases h1 with h1 | h1
-      · rw [herr q h1] at hV; cases hV
+      · have := herr q h1; simp [FS.isDir, hV] at this
       · simp [FS.isDir, hV] at h1
   | none =>
     cases hPq : P.get q with
